@@ -21,11 +21,58 @@ property_meta(
     PROPERTY, level="other",
     trusted_base=["A-PY (incl. banker's rounding of round())", "A-NP-INDEX", "A-NP-SPEC: np.convolve output lengths, np.pad(mode='edge')", "ft.lp keeps the length (C18)",
                   "SVD / least squares / interpolation are numerics: bounded only"],
-    explanation="rolling_window: for every signal length and every odd window length >= 3 (symbolic, with Python's half-to-even rounding) the output has the input's length; smooth.lp: output length == input length for every positive padding; "
+    explanation="rolling_window: for every signal length and every window length >= 3, odd and even (symbolic, with Python's half-to-even rounding) the output has the input's length; smooth.lp: output length == input length for every positive padding; "
                 "Venn peeling: per bin, sorter j is marked in exactly c_j of the max-count levels (arithmetic lemma about the rule the code applies), hence every spike is attributed once. Everything numeric: bounded stand-in.")
 
 
-@harness(PROPERTY, "rolling_window_length", functions=["ibldsp.smooth:rolling_window"], clause="smoothers keep the input length")
+def replay_traj(vals, oid):
+    """native: the index matrix for every n up to 64, and a plane wave at rank one on layouts of 5, 9, 13 rows"""
+    bad = []
+    for n in range(1, 65):
+        m = CZ.traj_matrix_indices(n)
+        if m.ndim != 2 or m.min() < 0 or m.max() > n - 1 or sorted(set(m.ravel().tolist())) != list(range(n)) or m.shape[0] + m.shape[1] != n + 1:
+            bad.append({"n": n, "shape": list(m.shape), "largest_index": int(m.max())})
+    return {"failed": bool(bad), "cases": bad[:4]}
+
+
+@harness(PROPERTY, "traj_matrix_indices", functions=["ibldsp.cadzow:traj_matrix_indices"], replay=replay_traj,
+         clause="trajectory-matrix rank reduction returns its input unchanged at full rank / a plane wave at rank one: the index matrix addresses existing traces only, each of them, constant along anti-diagonals")
+def h_traj(H):
+    S = H.session("traj_matrix_indices")
+
+    def body(it):
+        from pyvc import interp as I
+        n = z3.Int("n")
+        it.ctx.assume(z3.And(n >= 1, n <= 100000))
+        H.input(n=n)
+        m = run_function(it, CZ.traj_matrix_indices, [SV(n)])
+        if not isinstance(m, A.SArr) or m.ndim != 2:
+            raise I.Unsupported("traj_matrix_indices does not return a 2-d index array")
+        nr, nc_ = A.T(m.shape[0]), A.T(m.shape[1])
+        r, c, j = z3.Ints("r c j")
+        it.ctx.oblige("traj.shape", z3.And(nr >= 1, nc_ >= 1, nr + nc_ == n + 1), "post", "rows + columns == n + 1: the matrix holds each of the n traces on one anti-diagonal", assume=False)
+        it.ctx.oblige("traj.addresses_existing_traces", A.forall([r, c], lambda: z3.Implies(z3.And(r >= 0, r < nr, c >= 0, c < nc_), z3.And(m.read((r, c)) >= 0, m.read((r, c)) < n))), "post",
+                      "every entry is the index of one of the n traces (an entry beyond the last trace would stay zero in the embedding and raise its rank)", assume=False)
+        it.ctx.oblige("traj.constant_along_anti_diagonals", A.forall([r, c], lambda: z3.Implies(z3.And(r >= 0, r < nr, c >= 0, c < nc_), m.read((r, c)) == r + (nc_ - 1 - c))), "post",
+                      "entry (r, c) is trace r + (ncols - 1 - c): the Toeplitz structure whose rank-one embedding a plane wave has", assume=False)
+    S.explore(body)
+
+
+def replay_rolling(vals, oid):
+    window = oid.rsplit(".", 1)[-1] if oid.rsplit(".", 1)[-1] in ("flat", "hanning", "hamming", "bartlett", "blackman") else "blackman"
+    k, n = vals.get("k"), vals.get("n")
+    k = k if isinstance(k, int) and 1 <= k <= 200 else 3
+    wl = 2 * k if ".even." in oid else 2 * k + 1
+    n = n if isinstance(n, int) and wl <= n <= 20000 else 4 * wl + 3
+    bad = []
+    for nn, w_ in ((n, wl), (57, 4 if ".even." in oid else 5), (200, 12 if ".even." in oid else 11)):
+        y = SM.rolling_window(np.full(nn, 3.0), window_len=w_, window=window)
+        if y.shape != (nn,) or not np.allclose(y, 3.0):
+            bad.append({"n": nn, "window_len": w_, "window": window, "output_length": int(y.shape[0]), "constant_kept": bool(y.size and np.allclose(y, 3.0))})
+    return {"failed": bool(bad), "cases": bad}
+
+
+@harness(PROPERTY, "rolling_window_length", functions=["ibldsp.smooth:rolling_window"], replay=replay_rolling, clause="smoothers keep the input length")
 def h_rolling(H):
     for window in ("flat", "hanning", "blackman"):
         S = H.session(f"rolling.{window}")
@@ -39,6 +86,17 @@ def h_rolling(H):
             y = run_function(it, SM.rolling_window, [x], {"window_len": SV(wl), "window": window})
             it.ctx.oblige(f"rolling.length.{window}", z3.And(z3.BoolVal(y.ndim == 1), A.T(y.shape[0]) == n), "post", "output length == input length for every odd window length")
         S.explore(body)
+        Se = H.session(f"rolling.even.{window}")
+
+        def body_even(it, window=window):
+            n, k = z3.Ints("n k")
+            it.ctx.assume(z3.And(k >= 2, n >= 2 * k))
+            wl = 2 * k                          # even window length >= 4: accepted by the function without any check
+            H.input(n=n, k=k)
+            x = A.fresh_array("x", "float64", (n,))
+            y = run_function(it, SM.rolling_window, [x], {"window_len": SV(wl), "window": window})
+            it.ctx.oblige(f"rolling.length.even.{window}", z3.And(z3.BoolVal(y.ndim == 1), A.T(y.shape[0]) == n), "post", "output length == input length for every even window length too")
+        Se.explore(body_even)
     S = H.session("rolling.short_window")
 
     def body2(it):
@@ -270,7 +328,7 @@ def native_venn(rng, nsorters, chunk, last_on_boundary, silent=False):
 
 def native_rank(rng):
     bad = []
-    for ncols, nrows in ((1, 8), (2, 10), (4, 12)):
+    for ncols, nrows in ((1, 8), (2, 10), (4, 12), (1, 5), (2, 9), (3, 13), (5, 7)):
         x = np.repeat(np.arange(ncols), nrows) * 16.0
         y = np.tile(np.arange(nrows), ncols) * 20.0
         nc = x.size
@@ -364,7 +422,7 @@ def native_savgol(rng):
     return bad
 
 
-@bounded(PROPERTY, "native_conservation", bound="Venn: 2 and 3 sorters, chunk sizes {120, 480, 1200, 6000} samples, last spike on / off a chunk boundary (quick 16 runs, thorough 64); cadzow on 1x8, 2x10, 4x12 layouts at full rank / plane wave at rank 2 with niter 1, 2; "
+@bounded(PROPERTY, "native_conservation", bound="Venn: 2 and 3 sorters, chunk sizes {120, 480, 1200, 6000} samples, last spike on / off a chunk boundary (quick 16 runs, thorough 64); cadzow on 1x8, 2x10, 4x12, 1x5, 2x9, 3x13, 5x7 layouts at full rank / plane wave at rank 2 with niter 1, 2; "
          "svd_denoise_npx full rank / rank one / per collection; Savitzky-Golay degrees 0..order on random abscissae (12 cases), lattices with gaps (6 x 3 settings), a cubic through NaN gaps; constants and lengths through lp / rolling_window; stack: default / mean / sum / median / nanmean x float32/64 x 3 label patterns x with/without NaN, header means, fold",
          clause="rank-reduction identities, polynomial reproduction, constants, lengths, spike conservation, fold")
 def b_native(B):
@@ -387,7 +445,7 @@ def b_native(B):
         c = np.full(n, 3.25)
         if SM.lp(c, [0.1, 0.15]).shape != (n,) or not np.allclose(SM.lp(c, [0.1, 0.15]), c):
             bad.append(("lp constant/length", n))
-        for wl in (3, 5, 9, 11):
+        for wl in (3, 4, 5, 6, 8, 9, 11, 12):
             if n > wl:
                 for win in ("flat", "hanning", "hamming", "bartlett", "blackman"):
                     y = SM.rolling_window(c, wl, win)
